@@ -20,7 +20,9 @@
       it was (the previous complete snapshot), or describing the configuration
       now in force — nothing in between;
     - a restart restores the configuration the state file describes (a leftover
-      temporary file is not a state file). *)
+      temporary file is not a state file) and at no instant of the start is the
+      file anything but what it was (a process killed during start-up restarts
+      from the same complete snapshot). *)
 From KP Require Import model.Base.
 From Coq Require Import List Bool Arith.
 Import ListNotations.
@@ -38,7 +40,8 @@ Record fstep := mkFStep {
   fs_restart : bool;      (* the step is a restart, not a command *)
   fs_faulted : bool;      (* the snapshot write of this command was made to fail *)
   fs_file_before : ffile; fs_file_after : ffile;
-  fs_cfg_before : nat; fs_cfg_after : nat }.
+  fs_cfg_before : nat; fs_cfg_after : nat;
+  fs_during : list ffile  (* restart: the file as read at every file-system step of a snapshot made WHILE the restore runs *) }.
 
 (** the empty configuration is number 0: no file and an empty list describe the same thing *)
 Definition describes (f : ffile) (c : nat) : bool :=
@@ -52,7 +55,8 @@ Definition fstep_ok (s : fstep) : bool :=
   match fs_file_after s with FUndecodable => false | _ => true end &&
   (if fs_restart s then
      (* the file is untouched by a start, and what was restored is what it describes *)
-     ffile_eqb (fs_file_after s) (fs_file_before s) && describes (fs_file_before s) (fs_cfg_after s)
+     ffile_eqb (fs_file_after s) (fs_file_before s) && describes (fs_file_before s) (fs_cfg_after s) &&
+     forallb (fun f => ffile_eqb f (fs_file_before s)) (fs_during s)
    else if fs_faulted s then
      ffile_eqb (fs_file_after s) (fs_file_before s) || describes (fs_file_after s) (fs_cfg_after s)
    else describes (fs_file_after s) (fs_cfg_after s) ||
